@@ -3,3 +3,5 @@ import Cfdp.Lemmas.Segments
 import Cfdp.Props.C09
 import Cfdp.Props.C14
 import Cfdp.Props.C12
+import Cfdp.Props.C05
+import Cfdp.Props.C06
